@@ -7,7 +7,9 @@ import (
 	"os/exec"
 	"path/filepath"
 	"strings"
+	"syscall"
 	"testing"
+	"time"
 
 	lz4 "github.com/pierrec/lz4/v4"
 	"pgregory.net/rapid"
@@ -25,6 +27,59 @@ type c20File struct {
 	Mode uint32   `json:"mode"`
 	Name string   `json:"name,omitempty"` // file name (relative path) instead of f<i>.dat
 	Size *string  `json:"size,omitempty"` // when set for any file, every file is compressed by its own invocation with its own -size
+	Fifo bool     `json:"fifo,omitempty"` // the input is a named pipe (its size as reported by stat is 0) that a writer feeds while the command reads it
+}
+
+// c20Fifo: a named pipe with a goroutine that writes data into it once somebody opens it for reading.
+type c20Fifo struct {
+	path string
+	done chan struct{}
+}
+
+func feedFifo(path string, mode os.FileMode, data []byte) (*c20Fifo, error) {
+	if err := syscall.Mkfifo(path, uint32(mode.Perm())); err != nil {
+		return nil, err
+	}
+	if err := os.Chmod(path, mode.Perm()); err != nil {
+		return nil, err
+	}
+	f := &c20Fifo{path: path, done: make(chan struct{})}
+	go func() {
+		defer close(f.done)
+		w, err := os.OpenFile(path, os.O_WRONLY, 0) // (blocks until the command opens the pipe)
+		if err != nil {
+			return
+		}
+		_, _ = w.Write(data)
+		_ = w.Close()
+	}()
+	return f, nil
+}
+
+// release waits for the writer; a command that never opened (or never drained) the pipe is not allowed to leave the writer
+// blocked: after a grace period the harness drains the pipe itself (this is housekeeping, not a verdict).
+func (f *c20Fifo) release() {
+	select {
+	case <-f.done:
+		return
+	case <-time.After(2 * time.Second):
+	}
+	r, err := os.OpenFile(f.path, os.O_RDONLY|syscall.O_NONBLOCK, 0)
+	if err != nil {
+		return
+	}
+	defer r.Close()
+	buf := make([]byte, 1<<16)
+	for {
+		select {
+		case <-f.done:
+			return
+		default:
+		}
+		if n, _ := r.Read(buf); n == 0 {
+			time.Sleep(time.Millisecond)
+		}
+	}
 }
 
 type c20Case struct {
@@ -269,10 +324,19 @@ func runC20(c c20Case, rec *stat.Rec) *stat.Failure {
 				_ = os.Chmod(filepath.Join(dir, name), os.FileMode(f.Mode))
 				_, _, _, _ = lz4c(dir, nil, append(append([]string{"compress"}, c.flags()...), name)...)
 			}
-			if err := os.WriteFile(filepath.Join(dir, name), data, os.FileMode(f.Mode)); err != nil {
-				return stat.Failf("harness-problem", "%v", err)
+			if f.Fifo && !c.Rerun {
+				ff, err := feedFifo(filepath.Join(dir, name), os.FileMode(f.Mode), data)
+				if err != nil {
+					return stat.Failf("harness-problem", "%v", err)
+				}
+				defer ff.release()
+				rec.Class("input/named-pipe")
+			} else {
+				if err := os.WriteFile(filepath.Join(dir, name), data, os.FileMode(f.Mode)); err != nil {
+					return stat.Failf("harness-problem", "%v", err)
+				}
+				_ = os.Chmod(filepath.Join(dir, name), os.FileMode(f.Mode))
 			}
-			_ = os.Chmod(filepath.Join(dir, name), os.FileMode(f.Mode))
 			names = append(names, name)
 			datas[name] = data
 		}
@@ -402,6 +466,10 @@ func drawC20(t *rapid.T) c20Case {
 			d = gen.Data{Segs: segs}
 		}
 		f := c20File{Data: d, Mode: mode}
+		// a named pipe given by name: stat says 0 bytes, reading yields the data (needs read and write permission for the harness's writer)
+		if !c.Rerun && mode&0o600 == 0o600 && rapid.IntRange(0, 11).Draw(t, "fifo?") == 0 {
+			f.Fifo = true
+		}
 		if rapid.IntRange(0, 3).Draw(t, "name?") == 0 {
 			// names the command has to derive the other name from: an .lz4 file compressed again, ".lz4" inside the name or in a
 			// directory component, several dots, no extension, spaces, a hidden file
@@ -426,7 +494,7 @@ const c20Rule = "the lz4c binary built from the working tree (alternate go.mod w
 	"x -l {absent,0,1,2,5,9} x -c {absent,1,2}; optionally the output file already exists from an earlier, longer version of the input. Oracle: exit status 0 and every expected output present; " +
 	"x.lz4 is exactly one strictly valid frame (independent parser) whose content is the file; the header shows what the usage text says (-bc => block checksums, -sc => no content checksum, default " +
 	"=> content checksum, -size => block-size code); -l n => bytes equal to the library Writer at Level n (differential); same permission bits; uncompress restores bytes and permission bits. " +
-	"Pinned: one invocation over 52 / 84 small files under a limit of 32 / 64 descriptors (ulimit -n; the tool works on one file at a time). File names: f<i>.dat or (1 in 4) one of {x.lz4, archive.lz4.bak, store.lz4.d/data, a.b.c.tar, noext, 'with space.txt', .hidden, dir/sub/file.bin, n.lz4.lz4}. " +
+	"Inputs are regular files or (1 in 12, and pinned sizes 0, 1, bs, bs+1, 200000, 3bs) named pipes fed by a writer while the command reads them (stat reports 0 bytes). Pinned: one invocation over 52 / 84 small files under a limit of 32 / 64 descriptors (ulimit -n; the tool works on one file at a time). File names: f<i>.dat or (1 in 4) one of {x.lz4, archive.lz4.bak, store.lz4.d/data, a.b.c.tar, noext, 'with space.txt', .hidden, dir/sub/file.bin, n.lz4.lz4}. " +
 	"Non-trivial = file larger than one block or a non-default flag; distinct by (flags, size, content)."
 
 // TestC20ManyFiles: one invocation over more files than the process may hold descriptors (the tool handles one file at a time).
@@ -441,6 +509,21 @@ func TestC20ManyFiles(t *testing.T) {
 		for i := 0; i < lim+20; i++ {
 			c.Files = append(c.Files, c20File{Data: gen.Data{Segs: []gen.Seg{{K: "text", N: 50 + 37*i, S: uint64(i), P: 3}}}, Mode: 0o644})
 		}
+		pinned(t, "C20", "C20/cli", c, runC20)
+	}
+}
+
+// TestC20Fifo: inputs whose size the file system does not know in advance (named pipes given by name).
+func TestC20Fifo(t *testing.T) {
+	rec := stat.For("C20")
+	rec.SetRule(c20Rule)
+	if shard != nshards-1 {
+		return
+	}
+	for i, n := range []int{0, 1, 65536, 65537, 200000, 3 * 65536} {
+		c := c20Case{Size: "64K", Level: -1, BC: i%2 == 0, Files: []c20File{
+			{Data: gen.Data{Segs: []gen.Seg{{K: "text", N: n, S: uint64(i), P: 3}}}, Mode: 0o640, Fifo: true},
+			{Data: gen.Data{Segs: []gen.Seg{{K: "text", N: 1000, S: 77, P: 3}}}, Mode: 0o600}}}
 		pinned(t, "C20", "C20/cli", c, runC20)
 	}
 }
